@@ -141,3 +141,48 @@ theorem C19_itml_swap (γ gproj : ℝ) (numPos : ℕ) (vs : Vector (Vector ℝ d
     ext a b; simp [vecMulVec_apply]
   · rw [itmlStep_lam, itmlStep_lam, hα]
   · rw [itmlStep_bhat, itmlStep_bhat, hα]
+theorem sum_ind_eq_count : ∀ (n : ℕ) (chunk : Fin n → Int) (c : Int),
+    ∑ i, (ind (chunk i == c) : ℝ) = ((List.ofFn chunk).count c : ℝ) := by
+  intro n
+  induction n with
+  | zero => intro chunk c; simp
+  | succ n ih =>
+    intro chunk c
+    rw [Fin.sum_univ_succ, List.ofFn_succ, List.count_cons, ih (fun i => chunk i.succ) c]
+    push_cast
+    by_cases h : chunk 0 = c
+    · simp [ind, h]; ring
+    · simp [ind, h]
+
+theorem chunkMean_translate (X : Mat ℝ n d) (chunk : Fin n → Int) (t : Vec ℝ d) (i : Fin n) (a : Fin d) :
+    chunkMean (fun i => vadd (X i) t) chunk (chunk i) a = chunkMean X chunk (chunk i) a + t a := by
+  have hpos : 0 < chunkCount chunk (chunk i) := by
+    unfold chunkCount
+    exact List.count_pos_iff.mpr ((List.mem_ofFn' _ _).mpr ⟨i, rfl⟩)
+  have hne : ((chunkCount chunk (chunk i) : ℕ) : ℝ) ≠ 0 := by exact_mod_cast hpos.ne'
+  have hsum := sum_ind_eq_count n chunk (chunk i)
+  simp only [chunkMean, vsum_eq_sum, vadd, ofNat_real]
+  have : ∑ j, ind (chunk j == chunk i) * (X j a + t a)
+      = ∑ j, ind (chunk j == chunk i) * X j a + t a * (chunkCount chunk (chunk i) : ℝ) := by
+    simp only [mul_add, Finset.sum_add_distrib]
+    congr 1
+    rw [← Finset.sum_mul, hsum, mul_comm]; rfl
+  rw [this]
+  field_simp
+
+/-- RCA's within-chunk covariance — chunk-wise mean centring, one-point chunklets and unlabelled points
+included — does not see a common translation of the data -/
+theorem C19_innerCov_translate (X : Mat ℝ n d) (chunk : Fin n → Int) (t : Vec ℝ d) :
+    innerCov (fun i => vadd (X i) t) chunk = innerCov X chunk := by
+  funext a b
+  simp only [innerCov, vsum_eq_sum]
+  congr 1
+  apply Finset.sum_congr rfl; intro i _
+  rw [chunkMean_translate X chunk t i a, chunkMean_translate X chunk t i b]
+  simp only [vadd]; ring
+
+/-! non-vacuity: chunks {0,0,1} — the third point is a one-point chunklet — before and after a shift by 3 -/
+example : innerCov (K := Rat) (n := 3) (d := 1) (fun i _ => [0, 2, 5].getD i.val 0) (fun i => [0, 0, 1].getD i.val 0) 0 0 = 2 / 3 := by
+  decide +kernel
+example : innerCov (K := Rat) (n := 3) (d := 1) (fun i _ => [3, 5, 8].getD i.val 0) (fun i => [0, 0, 1].getD i.val 0) 0 0 = 2 / 3 := by
+  decide +kernel
